@@ -414,6 +414,89 @@ fn encoder<const P: usize, const TOTAL: usize, const SRC_V4: bool, const DST_V4:
  "thorough": "[(p,40+p,a,b,('v4' if a=='true' else 'v6')+('v4' if b=='true' else 'v6')) for p in (1,2,9,16) for a in ('true','false') for b in ('true','false')]"}
 @*/
 
+/// Large payloads: the 6.4 length field is 32 bits wide and must hold 36 + payload length for every payload a UDP
+/// socket can deliver (up to 65507 bytes, the forwarder's buffer is 65508).  The payload is a static all-zero array
+/// (contents do not matter here), only the record length, the length field and the address block are examined.
+/// Measured: 1472 bytes verify in 14 s; 32768 and 65500..65508 bytes make CBMC crash (status 139, stack exhaustion on
+/// the 64 KiB array constant) and, with an unlimited stack, run past 400 s - so the sizes at which a 16-bit length
+/// would wrap (seeded change C06-g) are NOT decided; the instances kept are an MTU-sized and a 4 KiB payload.
+static BIG_ZEROS: [u8; 65508] = [0; 65508];
+
+fn encoder_big<const P: usize>() {
+    let payload = Bytes::from_static(&BIG_ZEROS[..P]);
+    let s4: [u8; 4] = kani::any();
+    let d4: [u8; 4] = kani::any();
+    let sp: u16 = kani::any();
+    let dp: u16 = kani::any();
+    let dg = forwarder::UdpDatagram {
+        meta: forwarder::UdpDatagramMeta { source: SocketAddr::new(IpAddr::V4(Ipv4Addr::from(s4)), sp), destination: SocketAddr::new(IpAddr::V4(Ipv4Addr::from(d4)), dp) },
+        payload,
+    };
+    let out = Encoder::default().encode_packet(&dg);
+    match &out {
+        None => assert!(false, "C06.enc.big_none: a datagram for the client is not encoded"),
+        Some(b) => {
+            assert!(b.len() == 40 + P, "C06.enc.big_len: encoded record is not 4 + 36 + payload bytes");
+            let len = (36 + P) as u32;
+            assert!(b[0] == (len >> 24) as u8 && b[1] == (len >> 16) as u8 && b[2] == (len >> 8) as u8 && b[3] == len as u8, "C06.enc.big_length_field: the length field is not the big-endian record length excluding itself (a client following the length fields loses the record boundary)");
+            assert!(b[16] == s4[0] && b[19] == s4[3] && b[20] == (sp >> 8) as u8 && b[21] == sp as u8, "C06.enc.big_source");
+            assert!(b[34] == d4[0] && b[37] == d4[3] && b[38] == (dp >> 8) as u8 && b[39] == dp as u8, "C06.enc.big_destination");
+            kani::cover!(true, "C06.cover.enc_big_reached");
+        }
+    }
+    core::mem::forget(out);
+    core::mem::forget(dg);
+}
+
+/// The sizes at which a narrower length computation would wrap (65500..=65508: 36 + n >= 65536).  The payload is a
+/// slice header of that length whose bytes are never read: `BytesMut::extend_from_slice` is replaced by a version that
+/// grows the buffer without copying (STUB `extnocopy`), so the claim of these instances is the record length, the
+/// 32-bit length field and the address block - not the payload bytes, which the small instances cover.
+/// NOT INSTANTIATED: even without the copy CBMC crashes (status 139) on `BytesMut::with_capacity(65540)` and, with an
+/// unlimited stack, does not finish in 300 s - a 64 KiB heap object is beyond it.  Seeded change C06-g (16-bit length
+/// computation) is therefore not caught.
+fn encoder_max<const P: usize>() {
+    let payload = crate::verif_env::unread_bytes(P);
+    let s4: [u8; 4] = kani::any();
+    let d4: [u8; 4] = kani::any();
+    let sp: u16 = kani::any();
+    let dp: u16 = kani::any();
+    let dg = forwarder::UdpDatagram {
+        meta: forwarder::UdpDatagramMeta { source: SocketAddr::new(IpAddr::V4(Ipv4Addr::from(s4)), sp), destination: SocketAddr::new(IpAddr::V4(Ipv4Addr::from(d4)), dp) },
+        payload,
+    };
+    let out = Encoder::default().encode_packet(&dg);
+    match &out {
+        None => assert!(false, "C06.enc.max_none: a datagram for the client is not encoded"),
+        Some(b) => {
+            assert!(b.len() == 40 + P, "C06.enc.max_len: encoded record is not 4 + 36 + payload bytes");
+            let len = (36 + P) as u32;
+            assert!(b[0] == (len >> 24) as u8 && b[1] == (len >> 16) as u8 && b[2] == (len >> 8) as u8 && b[3] == len as u8, "C06.enc.max_length_field: the length field is not the big-endian record length excluding itself (a client following the length fields loses the record boundary)");
+            assert!(b[16] == s4[0] && b[19] == s4[3] && b[20] == (sp >> 8) as u8 && b[21] == sp as u8, "C06.enc.max_source");
+            assert!(b[34] == d4[0] && b[37] == d4[3] && b[38] == (dp >> 8) as u8 && b[39] == dp as u8, "C06.enc.max_destination");
+            kani::cover!(true, "C06.cover.enc_max_reached");
+        }
+    }
+    core::mem::forget(out);
+    core::mem::forget(dg);
+}
+
+/*@gen
+{"name": "c06_encoder_max_payload{0}", "call": "encoder_max::<{0}>()", "unwind": 20, "stubs": ["bytes", "bytesmut", "fmt", "extnocopy"], "core": true,
+ "bound": "payload of exactly {0} bytes (never read: the copy into the record is cut), IPv4 endpoints and ports symbolic",
+ "desc": "record length, 32-bit length field and address block of a record carrying a maximal UDP payload",
+ "encodes": ["http_udp_codec::Encoder::encode_packet"],
+ "quick": "[]", "thorough": "[]"}
+@*/
+
+/*@gen
+{"name": "c06_encoder_big_payload{0}", "call": "encoder_big::<{0}>()", "unwind": 20, "stubs": ["bytes", "bytesmut", "fmt"], "core": true,
+ "bound": "payload of exactly {0} zero bytes, IPv4 endpoints and ports symbolic",
+ "desc": "the 32-bit length field and the address block of a record carrying a maximal UDP payload",
+ "encodes": ["http_udp_codec::Encoder::encode_packet"],
+ "quick": "[1472]", "thorough": "[4096]"}
+@*/
+
 // ---------------------------------------------------------------------------------------------
 // Whole record through decode_chunk (loop glue), one chunk - not instantiated in any tier: 4-5 chained transitions
 // over heap-backed Bytes do not finish within 600 s; the loop glue is three lines and is covered by reading only
